@@ -834,6 +834,7 @@ func (ds *Dataset) updateDataset(newItemCount int64, entities []*Entity) error {
 
 func (ds *Dataset) GetChangesWatermark() (uint64, error) {
 	var waterMark uint64
+	empty := false
 
 	err := ds.store.database.View(func(btxn *badger.Txn) error {
 		//txn := InstrumentedTxn(btxn, ds.store)
@@ -852,12 +853,21 @@ func (ds *Dataset) GetChangesWatermark() (uint64, error) {
 
 		changesIterator.Rewind()
 		item := changesIterator.Item()
+		if item == nil || !bytes.HasPrefix(item.Key(), searchBuffer[:6]) {
+			// the dataset has no changes yet: the iterator stands on the last key before this dataset's
+			// change log (the change log of another dataset, or another index), or nowhere at all
+			empty = true
+			return nil
+		}
 		k := item.Key()
 
 		waterMark = binary.BigEndian.Uint64(k[6:14])
 
 		return nil
 	})
+	if empty {
+		return 0, err
+	}
 
 	// need to add one to point to next change in searches.
 	return waterMark + 1, err
